@@ -35,6 +35,9 @@ pub trait Src {
 pub struct KaniSrc;
 
 #[cfg(kani)]
+pub static mut REACH_OFF: bool = false;
+
+#[cfg(kani)]
 impl Src for KaniSrc {
     #[inline(always)]
     fn u8(&mut self) -> u8 {
@@ -121,7 +124,9 @@ macro_rules! reach {
         #[cfg(kani)]
         {
             let _ = &$s;
-            kani::cover!($c, $name);
+            // covers are switched off in the playback variant of a harness, so that the
+            // generated concrete test is the one of the FAILED check
+            kani::cover!(unsafe { !$crate::src::REACH_OFF } && $c, $name);
         }
         #[cfg(not(kani))]
         {
